@@ -266,7 +266,7 @@ func (g *G) tritLane(n int) string {
 }
 
 func genC06(g *G) {
-	hists := 25
+	hists := 10
 	if g.thorough {
 		hists = 400
 	}
